@@ -130,11 +130,17 @@ def run(ctx):
             d = objs[i]['d']
             cfg = objs[i]
             if kind == 'K':
-                x = rng.choice([0.5, 1.25, 2.0, rng.uniform(0.3, 3)])
+                x = rng.choice([0.5, 1.25, 2.0, rng.uniform(0.3, 3), rng.uniform(3, 40)])
+                xarg = x
+                if seq_i % 2 == 0:
+                    # one array per object, updated in place between its calls
+                    buf = cfg.setdefault('buf', np.zeros(()))
+                    buf[...] = x
+                    xarg = buf
                 with warnings.catch_warnings():
                     warnings.simplefilter('ignore')
                     try:
-                        val, info = d(x)
+                        val, info = d(xarg)
                     except ValueError:
                         # a configuration the library rejects (multicomplex with n > 2 after a change of n)
                         if not (cfg['method'] == 'multicomplex' and cfg['n'] > 2):
@@ -366,10 +372,17 @@ def shared_generator_histories(ctx, nd, rng):
             d = nd.Derivative(f, n=n, method=m, order=o, step=gen, full_output=True) if family == 'Derivative' else \
                 nd.Hessdiag(f, method=m, order=o, step=gen, full_output=True)
             objs.append({'d': d, 'f': fname, 'n': n, 'method': m, 'order': o})
+        inplace, xbuf = rng.random() < 0.5, None
         for call_i in range(rng.randint(4, 8)):
             cfg = rng.choice(objs)
             x = [rng.choice([0.5, 1.25, 2.5, 7.0, -3.5, rng.uniform(1.5, 9)]) for _ in range(dim)]
             xa = np.asarray(x if (dim > 1 or family == 'Hessdiag' or bs == 'array') else x[0])
+            if inplace:
+                # the caller keeps one array and updates it in place between the calls (x *= 2, x -= rate * grad(x), x[0] = ..)
+                if xbuf is None:
+                    xbuf = np.array(xa, dtype=float)
+                xbuf[...] = xa
+                xa = xbuf
             try:
                 with warnings.catch_warnings():
                     warnings.simplefilter('ignore')
